@@ -97,8 +97,10 @@ def check_render(profile, shown, report):
     out = []
     ev, h, u = shown
     expect_refactor = u > 0 or h > 20
-    for fmt, mod in (("text", format_text), ("markdown", format_markdown)):
-        text = harness.render(mod.print_summary, report, console_pos=0)
+    # the width of the console is part of the environment: wide always, a narrow one (a split pane, a CI log column) for every 5th total
+    widths = (250, 60) if sum(profile) % 5 == 0 else (250,)
+    for fmt, mod, width in [(f, m, w) for w in widths for f, m in (("text", format_text), ("markdown", format_markdown))]:
+        text = harness.render(mod.print_summary, report, console_pos=0, width=width)
         lines = [l for l in text.splitlines() if l.strip()]
         row = None
         for l in lines:
@@ -117,7 +119,7 @@ def check_render(profile, shown, report):
         if says_necessary == says_not:
             out.append(("verdict-unparseable", {"format": fmt}, verdict[0]))
         elif says_necessary != expect_refactor:
-            out.append(("verdict-wrong", {"format": fmt, "says_necessary": says_necessary},
+            out.append(("verdict-wrong", {"format": fmt, "says_necessary": says_necessary, **({"console_width": width} if width != 250 else {})},
                         f"{fmt}: shown (ev,h,u)={(ev, h, u)} profile {profile} verdict {verdict[0].strip()!r}"))
     return out
 
